@@ -19,12 +19,14 @@ Variable pv : N.
 Variable sv : N.
 Variable bound : N.
 Variable u : counts.
+Variable fl : list (N * nat).
+Variable W : world.
 
-Notation okstep := (okstep pv bound).
-Notation rel := (rel pv bound).
+Notation okstep := (okstep pv sv bound u fl W).
+Notation rel := (rel pv sv bound u fl W).
 Notation ctx_ok := (ctx_ok bound).
-Notation P_eval := (P_eval pv sv bound u).
-Notation eval_post := (eval_post pv bound u).
+Notation P_eval := (P_eval pv sv bound u fl W).
+Notation eval_post := (eval_post pv sv bound u fl W).
 
 Lemma okstep_trans sc e st2 F F1 F2 c c0 c1 E stL b1 E1 stL1 b2 E2 stL2 st1 :
   okstep sc e st1 F c c0 E stL b1 E1 stL1 F1 -> okstep sc e st2 F1 c0 c1 E1 stL1 b2 E2 stL2 F2 ->
@@ -108,7 +110,7 @@ Lemma okstep_lframe sc e st F c c' E stL b E' stL' F' :
   okstep sc e st F c c' E stL b E' stL' F' -> wframe bound c c' E stL E' stL' /\ F_new F F' c c'.
 Proof. intros (_ & Hf & _ & Hn & _). split; assumption. Qed.
 
-Notation xpost := (exit_post pv bound).
+Notation xpost := (exit_post pv sv bound u fl W).
 
 Lemma okstep_exit {A} ctx sc e st st1 F F1 c c0 c1 E stL b1 E1 stL1 b2 (r : SyltSem.res A) st' :
   okstep sc e st1 F c c0 E stL b1 E1 stL1 F1 -> rel sc e st E stL ->
@@ -116,7 +118,7 @@ Lemma okstep_exit {A} ctx sc e st st1 F F1 c c0 c1 E stL b1 E1 stL1 b2 (r : Sylt
   xpost ctx sc e c c1 E stL (b1 ++ b2) r st'.
 Proof.
   intros Hok Hrel Hx Ha Hb.
-  eapply (exit_pre pv bound ctx sc sc e e st st1); [exact Hok | exact Hrel | apply sext_refl | apply incl_refl | exact Hx | exact Ha | exact Hb].
+  eapply (exit_pre pv sv bound u fl W ctx sc sc e e st st1); [exact Hok | exact Hrel | apply sext_refl | apply incl_refl | exact Hx | exact Ha | exact Hb].
 Qed.
 
 Lemma okstep_exit' {A} ctx sc e st st1 F F1 c c' E stL b1 E1 stL1 b2 (r : SyltSem.res A) st' :
@@ -124,7 +126,7 @@ Lemma okstep_exit' {A} ctx sc e st st1 F F1 c c' E stL b1 E1 stL1 b2 (r : SyltSe
   xpost ctx sc e c c' E1 stL1 b2 r st' -> xpost ctx sc e c c' E stL (b1 ++ b2) r st'.
 Proof.
   intros Hok Hrel Hx.
-  eapply (exit_pre_gen pv bound ctx sc sc e e st st1); [exact Hok | exact Hrel | apply sext_refl | apply incl_refl | exact Hx | | | |]; lia.
+  eapply (exit_pre_gen pv sv bound u fl W ctx sc sc e e st st1); [exact Hok | exact Hrel | apply sext_refl | apply incl_refl | exact Hx | | | |]; lia.
 Qed.
 
 Lemma xpost_widen {A} ctx sc e c c' a b E stL bl (r : SyltSem.res A) st' :
@@ -140,7 +142,7 @@ Qed.
 Lemma eval_two n g k x1 x2 ctx c code_a va c0 code_b vb c1 c' e st sc l E stL F :
   P_eval n ->
   expression g x1 ctx c = Ok ((code_a, va), c0) -> expression g x2 ctx c0 = Ok ((code_b, vb), c1) ->
-  frag_expr pv sv bound k sc x1 = true -> frag_expr pv sv bound k sc x2 = true ->
+  frag_expr pv sv bound fl k sc x1 = true -> frag_expr pv sv bound fl k sc x2 = true ->
   ucovers u code_a -> ucovers u code_b -> c1 <= c' -> ctx_ok l F E c c' -> rel sc e st E stL ->
   exists b1 l1 b2 l2,
     cshape u l code_a b1 l1 c c0 /\ cshape u l1 code_b b2 l2 c0 c1 /\
@@ -159,10 +161,10 @@ Lemma eval_two n g k x1 x2 ctx c code_a va c0 code_b vb c1 c' e st sc l E stL F 
     end.
 Proof.
   intros IH Ha Hb Hfa Hfb Hua Hub Hc1 Hctx Hrel.
-  destruct (L_expr_all pv sv bound u g k x1 ctx c code_a va c0 sc l Ha Hfa) as (b1' & l1' & Hs1' & Hva1 & Hva2).
+  destruct (L_expr_all pv sv bound u fl g k x1 ctx c code_a va c0 sc l Ha Hfa) as (b1' & l1' & Hs1' & Hva1 & Hva2).
   pose proof Hs1' as (_ & Hc0 & _).
   assert (Hsb : forall l0, exists b2 l2, cshape u l0 code_b b2 l2 c0 c1 /\ c0 <= vb /\ vb < c1)
-    by (intros l0; apply (L_expr_all pv sv bound u g k x2 ctx c0 code_b vb c1 sc l0 Hb Hfb)).
+    by (intros l0; apply (L_expr_all pv sv bound u fl g k x2 ctx c0 code_b vb c1 sc l0 Hb Hfb)).
   destruct (Hsb l1') as (b2' & l2' & Hs2' & Hvb1 & Hvb2). pose proof Hs2' as (_ & Hc01 & _).
   assert (Hctxa : ctx_ok l F E c c0) by (eapply ctx_sub; [exact Hctx | lia | lia]).
   assert (Hfail1 : forall r1 st1, SyltSem.eval n e x1 st = (r1, st1) -> (forall v, r1 <> SyltSem.RVal v) ->
@@ -216,11 +218,11 @@ Qed.
    with V<t> already holding the literal `lit` *)
 Lemma sc_branch n g k x2 ctx cb0 code_b vb cb1 c c' e st sc l E stL F t p cond (lit go : bool) :
   P_eval n ->
-  expression g x2 ctx cb0 = Ok ((code_b, vb), cb1) -> frag_expr pv sv bound k sc x2 = true ->
+  expression g x2 ctx cb0 = Ok ((code_b, vb), cb1) -> frag_expr pv sv bound fl k sc x2 = true ->
   ucovers u code_b -> 1 <= count_of u t -> 1 <= count_of u vb ->
   bound <= c -> c <= cb0 -> cb1 <= c' -> c <= t < c' -> ~ (cb0 <= t < cb1) ->
   ctx_ok l F E cb0 cb1 -> rel sc e st E stL ->
-  sget (fmt_var t) E = Some p -> get_cell stL p = VBool lit -> alut_get l t = None ->
+  sget (fmt_var t) E = Some p -> (forall lv, ~ w_IL W p lv) -> get_cell stL p = VBool lit -> alut_get l t = None ->
   denotes F E stL (aexpand l cond) (SV (Values.VBool go)) ->
   exists bl l',
     cshape u l (IIf cond :: (code_b ++ [IAssign t vb]) ++ [IEnd]) bl l' c c' /\ alut_get l' t = None /\
@@ -231,10 +233,10 @@ Lemma sc_branch n g k x2 ctx cb0 code_b vb cb1 c c' e st sc l E stL F t p cond (
     | (r2, st2) => interesting r2 -> xpost ctx sc e c c' E stL bl r2 st2
     end.
 Proof.
-  intros IH Hb Hfb Hub Hct Hcvb Hbc Hc0 Hc1 Ht Htb Hctx Hrel Hp Hcell Hlt Hdc.
-  pose proof (r_wf _ _ _ _ _ _ _ Hrel) as Hwf. pose proof (r_linv _ _ _ _ _ _ _ Hrel) as Hli.
+  intros IH Hb Hfb Hub Hct Hcvb Hbc Hc0 Hc1 Ht Htb Hctx Hrel Hp Hnp Hcell Hlt Hdc.
+  pose proof (r_wf _ _ _ _ _ _ _ _ _ _ _ Hrel) as Hwf. pose proof (r_linv _ _ _ _ _ _ _ _ _ _ _ Hrel) as Hli.
   assert (Hsb : forall l0, exists b2 l2, cshape u l0 code_b b2 l2 cb0 cb1 /\ cb0 <= vb /\ vb < cb1)
-    by (intros l0; apply (L_expr_all pv sv bound u g k x2 ctx cb0 code_b vb cb1 sc l0 Hb Hfb)).
+    by (intros l0; apply (L_expr_all pv sv bound u fl g k x2 ctx cb0 code_b vb cb1 sc l0 Hb Hfb)).
   (* the block, given the block of code_b *)
   assert (Hmk : forall b2 l2, cshape u l code_b b2 l2 cb0 cb1 ->
             cshape u l (IIf cond :: (code_b ++ [IAssign t vb]) ++ [IEnd])
@@ -263,7 +265,7 @@ Proof.
       assert (Hp2' : xpost ctx sc e c c' E stc (b2 ++ fst (agen_one u l2 (IAssign t vb))) r2 st2).
       { destruct r2 as [v| |]; [exfalso; eapply Hnv; reflexivity | |];
           (eapply xpost_widen; [eapply exit_app; [exact Hp2 | apply N.le_refl] | lia | lia]). }
-      eapply (exit_if pv bound ctx sc e c c' E stL (aexpand l cond) _ [] (VBool true) stc); [exact Hwf | exact Hevc | exact Hxc | | exact Hp2'].
+      eapply (exit_if pv sv bound u fl W ctx sc e c c' E stL (aexpand l cond) _ [] (VBool true) stc); [exact Hwf | exact Hevc | exact Hxc | | exact Hp2'].
       cbn [truthy]. apply nolabel_app; [apply Hs2 | apply agen_one_nolabel; reflexivity].
     - destruct (Hsb l) as (b2 & l2 & Hs2 & _). destruct (Hmk b2 l2 Hs2) as (Hshape & Hlt2).
       eexists _, _. split; [exact Hshape|]. split; [exact Hlt2|]. intros Hg. contradiction. }
@@ -276,7 +278,7 @@ Proof.
       eexists _, _. split; [exact Hshape|]. split; [exact Hlt2|].
       destruct Hok2 as (Hx2 & Hf2 & Hrel2 & (Hi2 & Hn2) & Hk2).
       assert (Hp2 : sget (fmt_var t) E2 = Some p) by (apply (wr_incl _ _ _ _ _ _ _ Hf2); [lia | exact Hp]).
-      destruct (step_assign_temp pv bound u sc e st2 F2 c c' E2 stL2 l2 t vb p svb Hrel2 Hbc Ht Hct Hp2 Hlt2 Hd2)
+      destruct (step_assign_temp pv sv bound u fl W sc e st2 F2 c c' E2 stL2 l2 t vb p svb Hrel2 Hbc Ht Hct Hp2 Hnp Hlt2 Hd2)
         as (stL3 & lv & (Hx3 & Hf3 & Hrel3 & _ & Hk3) & Hc3 & Hv3).
       assert (Hf23 : wframe bound c c' E stc E2 stL3).
       { eapply wframe_trans; [eapply wframe_widen; [exact Hf2 | lia | lia] | exact Hf3]. }
@@ -287,7 +289,7 @@ Proof.
       * split; [apply ExecS_one; eapply Exec_if; [exact Hevc | exact Hinner]|].
         split; [eapply wframe_trans; [apply lframe_w; exact Hfc | eapply wframe_forget; exact Hf23]|].
         split; [|split; [split; [apply incl_tl, incl_refl | intros t' [<-|Ht']; [right; exact Ht | left; exact Ht']] | apply keep_refl]].
-        eapply (rel_restrict pv bound sc e st e st2 E E2 stc stL3); [exact Hrelc | exact Hrel3 | eapply keep_trans; eassumption | apply (wr_ncell _ _ _ _ _ _ _ Hf23)].
+        eapply (rel_restrict pv sv bound u fl W sc e st e st2 E E2 stc stL3); [exact Hrelc | exact Hrel3 | eapply keep_trans; eassumption | apply (wr_ncell _ _ _ _ _ _ _ Hf23)].
       * eapply denotes_local; [left; reflexivity | exact Hp | rewrite Hc3; exact Hv3].
     + apply (Hfail (SyltSem.RStop o) st2 eq_refl); [intros v; discriminate | reflexivity].
     + apply (Hfail (SyltSem.RAbrupt cc) st2 eq_refl); [intros v; discriminate | reflexivity].
@@ -306,17 +308,17 @@ Definition sc_cond (mid : option N) (va : N) : N := match mid with Some na => na
 Definition sc_go (mid : option N) (ba : bool) : bool := match mid with Some _ => negb ba | None => ba end.
 
 (* everything after the first operand of and (mid = None, lit = false) / or (mid = Some neg_a, lit = true) *)
-Lemma sc_tail n g k x2 ctx c0 code_b vb c1 c c' e st1 sc l1 E1 stL1 F1 t fl mid va (lit ba : bool) :
+Lemma sc_tail n g k x2 ctx c0 code_b vb c1 c c' e st1 sc l1 E1 stL1 F1 t flg mid va (lit ba : bool) :
   P_eval n ->
-  expression g x2 ctx c0 = Ok ((code_b, vb), c1) -> frag_expr pv sv bound k sc x2 = true -> ucovers u code_b ->
-  1 <= count_of u t -> 1 <= count_of u fl -> 1 <= count_of u vb ->
-  bound <= c -> c <= c0 -> c1 <= t < c' -> c1 <= fl < c' -> t <> fl ->
-  (forall na, mid = Some na -> c1 <= na < c' /\ na <> t /\ na <> fl /\ 1 <= count_of u na) ->
+  expression g x2 ctx c0 = Ok ((code_b, vb), c1) -> frag_expr pv sv bound fl k sc x2 = true -> ucovers u code_b ->
+  1 <= count_of u t -> 1 <= count_of u flg -> 1 <= count_of u vb ->
+  bound <= c -> c <= c0 -> c1 <= t < c' -> c1 <= flg < c' -> t <> flg ->
+  (forall na, mid = Some na -> c1 <= na < c' /\ na <> t /\ na <> flg /\ 1 <= count_of u na) ->
   va < c0 ->
   ctx_ok l1 F1 E1 c0 c' -> rel sc e st1 E1 stL1 ->
   denotes F1 E1 stL1 (aexpand l1 va) (SV (Values.VBool ba)) ->
   exists bl l',
-    cshape u l1 ([IDefine t; IBool fl lit; IAssign t fl] ++ sc_mid mid va ++ IIf (sc_cond mid va) :: (code_b ++ [IAssign t vb]) ++ [IEnd]) bl l' c c' /\
+    cshape u l1 ([IDefine t; IBool flg lit; IAssign t flg] ++ sc_mid mid va ++ IIf (sc_cond mid va) :: (code_b ++ [IAssign t vb]) ++ [IEnd]) bl l' c c' /\
     alut_get l' t = None /\
     match (if sc_go mid ba then SyltSem.eval n e x2 st1 else (SyltSem.RVal (SV (Values.VBool lit)), st1)) with
     | (SyltSem.RVal sv_, st2) =>
@@ -325,35 +327,35 @@ Lemma sc_tail n g k x2 ctx c0 code_b vb c1 c c' e st1 sc l1 E1 stL1 F1 t fl mid 
     end.
 Proof.
   intros IH Hm0 Hfr Hub Hct Hcfl Hcvb Hbc Hc0 Htr' Hflr' Htfl Hmid Hvalt Hctx1 Hrel1 Hd1.
-  destruct (L_expr_all pv sv bound u g k x2 ctx c0 code_b vb c1 sc l1 Hm0 Hfr) as (_ & _ & (_ & Hc01 & _) & Hvb1 & Hvb2).
+  destruct (L_expr_all pv sv bound u fl g k x2 ctx c0 code_b vb c1 sc l1 Hm0 Hfr) as (_ & _ & (_ & Hc01 & _) & Hvb1 & Hvb2).
   assert (Hbt : bound <= t) by (destruct Hctx1; lia).
   assert (Hctxt : ctx_ok l1 F1 E1 t (t + 1)) by (eapply ctx_sub; [exact Hctx1 | lia | lia]).
   assert (Htr : t <= t < t + 1) by lia.
-  assert (Hflr : fl <= fl < fl + 1) by lia.
+  assert (Hflr : flg <= flg < flg + 1) by lia.
   (* local V<t> = nil *)
-  destruct (step_define_temp pv bound u sc e st1 F1 t (t + 1) E1 stL1 l1 t Hrel1 Hctxt Htr Hct)
-    as (E2 & stL2 & p & Hokd & Hp & _).
+  destruct (step_define_temp pv sv bound u fl W sc e st1 F1 t (t + 1) E1 stL1 l1 t Hrel1 Hctxt Htr Hct)
+    as (E2 & stL2 & p & Hokd & Hp & _ & Hnp).
   pose proof Hokd as (_ & _ & Hrel2 & _). destruct (okstep_lframe _ _ _ _ _ _ _ _ _ _ _ _ Hokd) as (Hfd & Hnd).
   (* the literal *)
-  assert (Hctx2f : ctx_ok l1 F1 E2 fl (fl + 1)).
+  assert (Hctx2f : ctx_ok l1 F1 E2 flg (flg + 1)).
   { eapply ctx_disj; [eapply ctx_sub; [exact Hctx1 | lia | lia] | apply lut_frame_refl | exact Hnd | exact Hfd | exact Hbt | lia]. }
-  destruct (finish_iis pv bound u sc e st1 F1 fl (fl + 1) E2 stL2 l1 fl (if lit then ETrue else EFalse) _ Hrel2 Hctx2f Hflr (denotes_bool F1 E2 stL2 lit))
+  destruct (finish_iis pv sv bound u fl W sc e st1 F1 flg (flg + 1) E2 stL2 l1 flg (if lit then ETrue else EFalse) _ Hrel2 Hctx2f Hflr (denotes_bool F1 E2 stL2 lit))
     as (E3 & stL3 & F3 & Hokf & Hdf). specialize (Hdf Hcfl).
-  set (l1f := snd (aiis u l1 fl (if lit then ETrue else EFalse))) in *.
+  set (l1f := snd (aiis u l1 flg (if lit then ETrue else EFalse))) in *.
   pose proof Hokf as (_ & _ & Hrel3 & _). destruct (okstep_lframe _ _ _ _ _ _ _ _ _ _ _ _ Hokf) as (Hff & Hnf).
   assert (Hp3 : sget (fmt_var t) E3 = Some p) by (apply (wr_incl _ _ _ _ _ _ _ Hff); [exact Hbt | exact Hp]).
   assert (Hlt1 : alut_get l1 t = None) by (apply (cx_lut _ _ _ _ _ _ Hctx1); left; lia).
   assert (Hltf : alut_get l1f t = None) by (unfold l1f; rewrite aiis_lut by lia; exact Hlt1).
   (* V<t> = lit *)
-  destruct (step_assign_temp pv bound u sc e st1 F3 t (t + 1) E3 stL3 l1f t fl p _ Hrel3 Hbt Htr Hct Hp3 Hltf Hdf)
+  destruct (step_assign_temp pv sv bound u fl W sc e st1 F3 t (t + 1) E3 stL3 l1f t flg p _ Hrel3 Hbt Htr Hct Hp3 Hnp Hltf Hdf)
     as (stL4 & lv4 & Hoka & Hc4 & Hv4).
   assert (Hc4' : get_cell stL4 p = VBool lit) by (rewrite Hc4; inversion Hv4; reflexivity).
   pose proof Hoka as (_ & _ & Hrel4 & _). destruct (okstep_lframe _ _ _ _ _ _ _ _ _ _ _ _ Hoka) as (Hfa & Hna).
-  assert (HF3 : forall x, x <> fl -> F_out bound F3 x (x + 1) <-> F_out bound F3 x (x + 1)) by (intros; reflexivity).
-  assert (Hctx4 : forall a b, c0 <= a -> b <= c' -> (b <= t \/ t + 1 <= a) -> (b <= fl \/ fl + 1 <= a) -> ctx_ok l1f F3 E3 a b).
+  assert (HF3 : forall x, x <> flg -> F_out bound F3 x (x + 1) <-> F_out bound F3 x (x + 1)) by (intros; reflexivity).
+  assert (Hctx4 : forall a b, c0 <= a -> b <= c' -> (b <= t \/ t + 1 <= a) -> (b <= flg \/ flg + 1 <= a) -> ctx_ok l1f F3 E3 a b).
   { intros a b Ha Hb Hdt Hdf'.
     eapply (ctx_disj l1f F3 E3 stL3 a b t (t + 1)); [|apply lut_frame_refl | exact Hna | exact Hfa | exact Hbt | lia].
-    eapply (ctx_disj l1 F1 E2 stL2 a b fl (fl + 1)); [|apply aiis_frame; lia | exact Hnf | exact Hff | lia | lia].
+    eapply (ctx_disj l1 F1 E2 stL2 a b flg (flg + 1)); [|apply aiis_frame; lia | exact Hnf | exact Hff | lia | lia].
     eapply (ctx_disj l1 F1 E1 stL1 a b t (t + 1)); [|apply lut_frame_refl | exact Hnd | exact Hfd | exact Hbt | lia].
     eapply ctx_sub; [exact Hctx1 | lia | lia]. }
   assert (Hdva : denotes F3 E3 stL4 (aexpand l1f va) (SV (Values.VBool ba))).
@@ -365,15 +367,15 @@ Proof.
       + apply (cx_F _ _ _ _ _ _ Hctxt). exact H.
       + split; lia. }
   assert (Hpre3 : okstep sc e st1 F1 c c' E1 stL1
-                    (fst (agen_one u l1 (IDefine t)) ++ fst (aiis u l1 fl (if lit then ETrue else EFalse)) ++ fst (agen_one u l1f (IAssign t fl))) E3 stL4 F3).
+                    (fst (agen_one u l1 (IDefine t)) ++ fst (aiis u l1 flg (if lit then ETrue else EFalse)) ++ fst (agen_one u l1f (IAssign t flg))) E3 stL4 F3).
   { eapply okstep_trans'; [eapply okstep_widen; [exact Hokd | lia | lia]|].
     eapply okstep_trans'; [eapply okstep_widen; [exact Hokf | lia | lia]|].
     eapply okstep_widen; [exact Hoka | lia | lia]. }
-  assert (Hsh3 : cshape u l1 [IDefine t; IBool fl lit; IAssign t fl]
-                   (fst (agen_one u l1 (IDefine t)) ++ fst (aiis u l1 fl (if lit then ETrue else EFalse)) ++ fst (agen_one u l1f (IAssign t fl))) l1f c c').
+  assert (Hsh3 : cshape u l1 [IDefine t; IBool flg lit; IAssign t flg]
+                   (fst (agen_one u l1 (IDefine t)) ++ fst (aiis u l1 flg (if lit then ETrue else EFalse)) ++ fst (agen_one u l1f (IAssign t flg))) l1f c c').
   { eapply cshape_cons'; [apply (cshape_plain u l1 (IDefine t) c c'); [lia | reflexivity | reflexivity | apply used_plain]|].
-    eapply cshape_cons'; [eapply (cshape_iis u l1 (IBool fl lit) fl _ c c'); [lia | reflexivity | reflexivity]|].
-    apply (cshape_plain u l1f (IAssign t fl) c c'); [lia | reflexivity | reflexivity | apply used_plain]. }
+    eapply cshape_cons'; [eapply (cshape_iis u l1 (IBool flg lit) flg _ c c'); [lia | reflexivity | reflexivity]|].
+    apply (cshape_plain u l1f (IAssign t flg) c c'); [lia | reflexivity | reflexivity | apply used_plain]. }
   (* or: the negated condition *)
   assert (Hmidstep : exists E5 stL5 F5 l5 bm,
              cshape u l1f (sc_mid mid va) bm l5 c c' /\ okstep sc e st1 F3 c c' E3 stL4 bm E5 stL5 F5 /\
@@ -382,7 +384,7 @@ Proof.
   { destruct mid as [na|]; cbn [sc_mid sc_cond sc_go].
     - destruct (Hmid na eq_refl) as (Hnar & Hnat & Hnaf & Hcna).
       assert (Hctxn : ctx_ok l1f F3 E3 na (na + 1)) by (apply Hctx4; lia).
-      destruct (finish_iis pv bound u sc e st1 F3 na (na + 1) E3 stL4 l1f na _ _ Hrel4 Hctxn ltac:(lia) (denotes_not F3 E3 stL4 _ ba Hdva))
+      destruct (finish_iis pv sv bound u fl W sc e st1 F3 na (na + 1) E3 stL4 l1f na _ _ Hrel4 Hctxn ltac:(lia) (denotes_not F3 E3 stL4 _ ba Hdva))
         as (E5 & stL5 & F5 & Hokn & Hdn). specialize (Hdn Hcna).
       destruct (okstep_lframe _ _ _ _ _ _ _ _ _ _ _ _ Hokn) as (Hfn & Hnn). pose proof Hokn as (_ & _ & Hrel5 & _).
       eexists E5, stL5, F5, _, _. splits.
@@ -405,12 +407,12 @@ Proof.
   pose proof Hokm as (_ & _ & Hrel5 & _).
   assert (Hr1 : c1 <= c') by lia. assert (Hr2 : c <= t < c') by lia. assert (Hr3 : ~ (c0 <= t < c1)) by lia.
   destruct (sc_branch n g k x2 ctx c0 code_b vb c1 c c' e st1 sc l5 E5 stL5 F5 t p (sc_cond mid va) lit (sc_go mid ba) IH Hm0 Hfr Hub Hct Hcvb Hbc Hc0
-              Hr1 Hr2 Hr3 Hctxb Hrel5 Hp5 Hc5 Hlt5 Hdc)
+              Hr1 Hr2 Hr3 Hctxb Hrel5 Hp5 Hnp Hc5 Hlt5 Hdc)
     as (bl & l' & Hshape_t & Hlt' & Hmatch).
   eexists _, _. split; [eapply cshape_app'; [exact Hsh3|]; eapply cshape_app'; [exact Hshm | exact Hshape_t]|].
   split; [exact Hlt'|].
   assert (Hpre : okstep sc e st1 F1 c c' E1 stL1
-                   ((fst (agen_one u l1 (IDefine t)) ++ fst (aiis u l1 fl (if lit then ETrue else EFalse)) ++ fst (agen_one u l1f (IAssign t fl))) ++ bm) E5 stL5 F5)
+                   ((fst (agen_one u l1 (IDefine t)) ++ fst (aiis u l1 flg (if lit then ETrue else EFalse)) ++ fst (agen_one u l1f (IAssign t flg))) ++ bm) E5 stL5 F5)
     by (eapply okstep_trans'; eassumption).
   rewrite app_assoc.
   destruct (if sc_go mid ba then SyltSem.eval n e x2 st1 else (SyltSem.RVal (SV (Values.VBool lit)), st1)) as [[sv_|o|cc] st2].
@@ -465,6 +467,72 @@ Proof.
     end.
 Qed.
 
+(* ------------------------------------------------------------------ the arguments of a call *)
+
+Lemma fun_arity_in f ar : fun_arity fl f = Some ar -> In (f, ar) fl.
+Proof.
+  unfold fun_arity. destruct (find (fun fa => fst fa =? f) fl) as [[f' ar']|] eqn:Hf; [|discriminate].
+  intros H. inversion H; subst ar'. apply find_some in Hf as [Hin Heq]. cbn [fst] in Heq. apply N.eqb_eq in Heq. subst f'. exact Hin.
+Qed.
+
+Lemma args_sim n g : P_eval n ->
+  forall args k ctx c rs c' cend e st ra st' sc l E stL F,
+    SyltSem.mapM (SyltSem.eval n e) args st = (ra, st') ->
+    mapM (fun a => expression g a ctx) args c = Ok (rs, c') ->
+    forallb (frag_expr pv sv bound fl k sc) args = true ->
+    ucovers u (concat (map fst rs)) -> (forall r, In r rs -> 1 <= count_of u (snd r)) ->
+    c' <= cend -> ctx_ok l F E c cend -> rel sc e st E stL -> interesting ra ->
+    exists b l', cshape u l (concat (map fst rs)) b l' c c' /\
+      match ra with
+      | SyltSem.RVal avs =>
+          exists E' stL' F', okstep sc e st' F c c' E stL b E' stL' F' /\ ctx_ok l' F' E' c' cend /\
+            Forall2 (fun av t => denotes F' E' stL' (aexpand l' t) av) avs (map snd rs)
+      | _ => xpost ctx sc e c c' E stL b ra st'
+      end.
+Proof.
+  intros IH. induction args as [|a args IHa]; intros k ctx c rs c' cend e st ra st' sc l E stL F Hev Hm Hf Hu Hcnt Hce Hctx Hrel Hint.
+  - destruct (mapM_nil_ok _ _ _ _ Hm) as [-> ->]. cbn in Hev. inversion Hev; subst ra st'.
+    eexists _, _. split; [apply cshape_nil|]. exists E, stL, F.
+    split; [apply okstep_refl; exact Hrel | split; [exact Hctx | constructor]].
+  - apply mapM_cons_ok in Hm as (y & c1 & ys & Hy & Hys & ->). destruct y as [code_a va].
+    cbn [forallb] in Hf. apply andb_prop in Hf as [Hfa Hfs].
+    cbn [map concat fst snd] in *. apply ucovers_app in Hu as [Hua Hus].
+    assert (Hcva : 1 <= count_of u va) by (apply (Hcnt (code_a, va)); left; reflexivity).
+    assert (Hcnts : forall r, In r ys -> 1 <= count_of u (snd r)) by (intros r Hr; apply Hcnt; right; exact Hr).
+    destruct (L_expr_all pv sv bound u fl g k a ctx c code_a va c1 sc l Hy Hfa) as (_ & _ & (_ & Hcc1 & _) & Hva1 & Hva2).
+    assert (HLr : forall l0, exists b2 l2, cshape u l0 (concat (map fst ys)) b2 l2 c1 c')
+      by (intros l0; destruct (L_args pv sv bound u fl g (L_expr_all pv sv bound u fl g) args k ctx c1 ys c' sc l0 Hys Hfs) as (b2 & l2 & H2 & _); eauto).
+    destruct (HLr l) as (_ & _ & (_ & Hc1c' & _)).
+    assert (Hctxa : ctx_ok l F E c c1) by (eapply ctx_sub; [exact Hctx | lia | lia]).
+    cbn [SyltSem.mapM] in Hev. unfold SyltSem.bind at 1 in Hev.
+    destruct (SyltSem.eval n e a st) as [[y|o|cc] st1] eqn:Hy1.
+    2,3: (inversion Hev; subst ra st';
+          destruct (IH g k a ctx c code_a va c1 e st _ st1 sc l E stL F Hy1 Hy Hfa Hua Hctxa Hrel Hint) as (b1 & l1 & Hs1 & _ & _ & Hp1);
+          destruct (HLr l1) as (b2 & l2 & Hs2);
+          eexists _, _; (split; [eapply cshape_app; eassumption|]); cbn [eval_post] in Hp1; eapply (exit_app pv sv bound u fl W ctx sc e c c1 c'); [exact Hp1 | exact Hc1c']).
+    destruct (IH g k a ctx c code_a va c1 e st _ st1 sc l E stL F Hy1 Hy Hfa Hua Hctxa Hrel I)
+      as (b1 & l1 & Hs1 & _ & _ & E1 & stL1 & F1 & Hok1 & Hd1). specialize (Hd1 Hcva).
+    pose proof Hok1 as (_ & _ & Hrel1 & _).
+    assert (Hctx1 : ctx_ok l1 F1 E1 c1 cend) by (eapply ctx_after; eassumption).
+    unfold SyltSem.bind at 1 in Hev.
+    destruct (SyltSem.mapM (SyltSem.eval n e) args st1) as [rr st2] eqn:Hrest.
+    assert (Hintr : interesting rr).
+    { destruct rr as [ys_|o|cc]; [exact I | |]; cbn in Hev; inversion Hev; subst; exact Hint. }
+    destruct (IHa k ctx c1 ys c' cend e st1 rr st2 sc l1 E1 stL1 F1 Hrest Hys Hfs Hus Hcnts Hce Hctx1 Hrel1 Hintr)
+      as (b2 & l2 & Hs2 & Hpost).
+    eexists _, _. split; [eapply cshape_app; eassumption|].
+    destruct rr as [ys_|o|cc]; cbn in Hev; inversion Hev; subst ra st'; clear Hev.
+    + destruct Hpost as (E2 & stL2 & F2 & Hok2 & Hctx2 & Hds).
+      exists E2, stL2, F2. split; [eapply okstep_trans; [exact Hok1 | exact Hok2 | lia | lia]|]. split; [exact Hctx2|].
+      constructor; [|exact Hds].
+      replace (aexpand l2 va) with (aexpand l1 va)
+        by (unfold aexpand; destruct Hs2 as (_ & _ & Hfr2 & _); rewrite Hfr2 by lia; reflexivity).
+      assert (Hctx1' : ctx_ok l1 F1 E1 c1 c') by (eapply ctx_sub; [exact Hctx1 | lia | exact Hce]).
+      eapply denotes_step; [exact Hd1 | exact Hok2 | apply (cx_F _ _ _ _ _ _ Hctx1')].
+    + eapply okstep_exit; [exact Hok1 | exact Hrel | exact Hpost | lia | lia].
+    + eapply okstep_exit; [exact Hok1 | exact Hrel | exact Hpost | lia | lia].
+Qed.
+
 (* ------------------------------------------------------------------ if / elif / else *)
 
 Definition if_go (n : nat) (e : senv) : list ifbranch -> SyltSem.M sval :=
@@ -480,8 +548,52 @@ Definition if_go (n : nat) (e : senv) : list ifbranch -> SyltSem.M sval :=
 Lemma seval_if n e brs sp : SyltSem.eval (S n) e (EIf brs sp) = if_go n e brs.
 Proof. reflexivity. Qed.
 
-Notation P_bv := (P_bv pv sv bound u).
-Notation bv_post := (bv_post pv bound).
+(* the loop of the reference interpreter (the local fixpoint of SyltSem.exec) *)
+Definition loop_go (f : nat) (e : senv) (cond : Resolved.expr) (body : list Resolved.stmt) : nat -> SyltSem.M senv :=
+  fix loop (n : nat) : SyltSem.M senv :=
+    match n with
+    | O => SyltSem.stop SyltSem.OFuel
+    | S n' =>
+        SyltSem.bind (SyltSem.eval f e cond) (fun c => SyltSem.bind (SyltSem.truth "loop" c) (fun bc =>
+          if bc then
+            fun st =>
+              match SyltSem.exec_block f e body st with
+              | (SyltSem.RVal _, st') => loop n' st'
+              | (SyltSem.RAbrupt SyltSem.CBreak, st') => (SyltSem.RVal e, st')
+              | (SyltSem.RAbrupt SyltSem.CContinue, st') => loop n' st'
+              | (r, st') => (match r with
+                             | SyltSem.RVal _ => SyltSem.RVal e
+                             | SyltSem.RStop o => SyltSem.RStop o
+                             | SyltSem.RAbrupt c => SyltSem.RAbrupt c
+                             end, st')
+              end
+          else SyltSem.ret e))
+    end.
+
+Lemma exec_loop_eq f e cond body sp : SyltSem.exec (S f) e (SLoop cond body sp) = loop_go f e cond body f.
+Proof. reflexivity. Qed.
+
+Lemma loop_go_S f e cond body m :
+  loop_go f e cond body (S m) =
+  SyltSem.bind (SyltSem.eval f e cond) (fun c => SyltSem.bind (SyltSem.truth "loop" c) (fun bc =>
+    if bc then
+      fun st =>
+        match SyltSem.exec_block f e body st with
+        | (SyltSem.RVal _, st') => loop_go f e cond body m st'
+        | (SyltSem.RAbrupt SyltSem.CBreak, st') => (SyltSem.RVal e, st')
+        | (SyltSem.RAbrupt SyltSem.CContinue, st') => loop_go f e cond body m st'
+        | (r, st') => (match r with
+                       | SyltSem.RVal _ => SyltSem.RVal e
+                       | SyltSem.RStop o => SyltSem.RStop o
+                       | SyltSem.RAbrupt c => SyltSem.RAbrupt c
+                       end, st')
+        end
+    else SyltSem.ret e)).
+Proof. reflexivity. Qed.
+
+
+Notation P_bv := (P_bv pv sv bound u fl W).
+Notation bv_post := (bv_post pv sv bound u fl W).
 
 Lemma ctx_lut l F E a b l' x y :
   ctx_ok l F E a b -> lut_frame l l' x y -> bound <= x -> (y <= a \/ b <= x) -> ctx_ok l' F E a b.
@@ -508,7 +620,7 @@ Lemma okstep_if sc e st st2 F lo hi E stL cnd t f vc stc Ein stL' :
   okstep sc e st2 F lo hi E stL [SIf cnd t f] E stL' F.
 Proof.
   intros Hrel Hev Hx Hnl Hxs Hrel' Hk.
-  pose proof (r_wf _ _ _ _ _ _ _ Hrel) as Hwf.
+  pose proof (r_wf _ _ _ _ _ _ _ _ _ _ _ Hrel) as Hwf.
   split; [apply ExecS_one; eapply Exec_if; [exact Hev | apply ExecBlock_of_ExecS_nil; eassumption]|].
   split; [|split; [exact Hrel' | split; [apply F_new_refl | apply keep_refl]]].
   destruct (xkeep_cells_ext bound lo hi E stL stc stL' Hwf Hx Hk) as [Hn Hc].
@@ -519,33 +631,33 @@ Lemma branches_sim n g : P_eval n -> P_bv n ->
   forall brs k ctx c codes c' e st r st' sc l E stL F out p lo hi,
     if_go n e brs st = (r, st') ->
     mapM (lower_if_branch (statement g) (expression g) out ctx) brs c = Ok (codes, c') ->
-    frag_branches pv sv bound k sc brs = true ->
+    frag_branches pv sv bound fl k sc brs = true ->
     ucovers u (concat codes ++ map (fun _ => IEnd) brs) -> ctx_ok l F E c c' -> rel sc e st E stL ->
     bound <= lo -> lo <= c -> c' <= hi -> lo <= out < hi -> ~ (c <= out < c') ->
-    sget (fmt_var out) E = Some p -> get_cell stL p = VNil -> alut_get l out = None -> 1 <= count_of u out ->
+    sget (fmt_var out) E = Some p -> (forall lv, ~ w_IL W p lv) -> get_cell stL p = VNil -> alut_get l out = None -> 1 <= count_of u out ->
     ~ In out F ->
     interesting r ->
     exists b l', cshape u l (concat codes ++ map (fun _ => IEnd) brs) b l' c c' /\ alut_get l' out = None /\
                  brs_post ctx sc e F lo hi E stL b p r st'.
 Proof.
   intros IHe IHb. induction brs as [|[[cond|] body bsp] brs IH];
-    intros k ctx c codes c' e st r st' sc l E stL F out p lo hi Hev Hm Hf Hu Hctx Hrel Hblo Hlc Hch Hout Hoc Hp Hcell Hlout Hcout HoutF Hint.
+    intros k ctx c codes c' e st r st' sc l E stL F out p lo hi Hev Hm Hf Hu Hctx Hrel Hblo Hlc Hch Hout Hoc Hp Hnp Hcell Hlout Hcout HoutF Hint.
   - (* no branch left *)
     destruct (mapM_nil_ok _ _ _ _ Hm) as [-> ->]. cbn in Hev. inversion Hev; subst r st'.
     eexists _, _. split; [apply cshape_nil|]. split; [exact Hlout|].
     cbn [brs_post]. exists E, stL, F. split; [apply okstep_refl; exact Hrel | rewrite Hcell; constructor].
   - (* a conditional branch *)
     destruct k as [|k]; [discriminate|]. rewrite frag_branches_some in Hf. frag_split Hf.
-    destruct (frag_stmts pv sv bound k sc body) as [scb|] eqn:Hfb; [|discriminate Hfr0].
+    destruct (frag_stmts pv sv bound fl k sc body) as [scb|] eqn:Hfb; [|discriminate Hfr0].
     apply mapM_cons_ok in Hm as (y & c1 & ys & Hy & Hys & ->).
     unfold lower_if_branch in Hy. mon Hy. destruct a as [code_c vc]. cbn [fst snd] in *. rename a0 into blk.
     (* structure *)
-    destruct (L_expr_all pv sv bound u g k cond ctx c code_c vc c0 sc l Hm Hf) as (bc0 & lc0 & Hsc0 & Hvc1 & Hvc2).
+    destruct (L_expr_all pv sv bound u fl g k cond ctx c code_c vc c0 sc l Hm Hf) as (bc0 & lc0 & Hsc0 & Hvc1 & Hvc2).
     pose proof Hsc0 as (_ & Hc0 & _).
     assert (HLb : forall l0, exists bb l2, cshape u l0 blk bb l2 c0 c1)
-      by (intros l0; eapply (L_eblock pv sv bound u g (L_expr_all pv sv bound u g) (L_stmts_all pv sv bound u g)); eassumption).
+      by (intros l0; eapply (L_eblock pv sv bound u fl g (L_expr_all pv sv bound u fl g) (L_stmts_all pv sv bound u fl g)); eassumption).
     assert (HLr : forall l0, exists br l3, cshape u l0 (concat ys ++ map (fun _ : ifbranch => IEnd) brs) br l3 c1 c')
-      by (intros l0; eapply (L_branches pv sv bound u g (L_expr_all pv sv bound u g) (L_stmts_all pv sv bound u g)); eassumption).
+      by (intros l0; eapply (L_branches pv sv bound u fl g (L_expr_all pv sv bound u fl g) (L_stmts_all pv sv bound u fl g)); eassumption).
     destruct (HLb l) as (_ & _ & (_ & Hc01 & _)). destruct (HLr l) as (_ & _ & (_ & Hc1' & _)).
     assert (Hcode : concat ((code_c ++ [IIf vc] ++ blk ++ [IElse]) :: ys) ++ map (fun _ : ifbranch => IEnd) (IfBranch (Some cond) body bsp :: brs)
                     = code_c ++ (IIf vc :: blk ++ IElse :: (concat ys ++ map (fun _ : ifbranch => IEnd) brs) ++ [IEnd])).
@@ -581,7 +693,7 @@ Proof.
       as (bc & l1 & Hs1 & _ & _ & E1 & stL1 & F1 & Hok1 & Hd1). specialize (Hd1 Hcvc).
     pose proof Hok1 as (_ & Hf1 & Hrel1 & Hn1 & _).
     assert (Hctx1 : ctx_ok l1 F1 E1 c0 c') by (eapply ctx_after; eassumption).
-    pose proof (r_wf _ _ _ _ _ _ _ Hrel1) as Hwf1. pose proof (r_linv _ _ _ _ _ _ _ Hrel1) as Hli1.
+    pose proof (r_wf _ _ _ _ _ _ _ _ _ _ _ Hrel1) as Hwf1. pose proof (r_linv _ _ _ _ _ _ _ _ _ _ _ Hrel1) as Hli1.
     destruct (denotes_now _ _ _ _ _ Hd1 Hwf1 Hli1) as (lvc & Hvvc & stc & Hevc & _ & Hxc).
     unfold SyltSem.bind at 1 in Hev.
     assert (Hbc : exists bcv, vc_ = SV (Values.VBool bcv)).
@@ -611,9 +723,9 @@ Proof.
         eapply (okstep_if sc e st1 st' F1 lo hi E1 stL1 (aexpand l1 vc) bb br (VBool true) stc Ein stL'); try assumption.
         cbn [truthy]. apply Hs2.
       * eapply okstep_exit'; [exact Hokc | exact Hrel |].
-        eapply (exit_if pv bound ctx sc e lo hi E1 stL1 (aexpand l1 vc) bb br (VBool true) stc); [exact Hwf1 | exact Hevc | exact Hxc | cbn [truthy]; apply Hs2 | exact Hpb].
+        eapply (exit_if pv sv bound u fl W ctx sc e lo hi E1 stL1 (aexpand l1 vc) bb br (VBool true) stc); [exact Hwf1 | exact Hevc | exact Hxc | cbn [truthy]; apply Hs2 | exact Hpb].
       * eapply okstep_exit'; [exact Hokc | exact Hrel |].
-        eapply (exit_if pv bound ctx sc e lo hi E1 stL1 (aexpand l1 vc) bb br (VBool true) stc); [exact Hwf1 | exact Hevc | exact Hxc | cbn [truthy]; apply Hs2 | exact Hpb].
+        eapply (exit_if pv sv bound u fl W ctx sc e lo hi E1 stL1 (aexpand l1 vc) bb br (VBool true) stc); [exact Hwf1 | exact Hevc | exact Hxc | cbn [truthy]; apply Hs2 | exact Hpb].
     + (* the next branch *)
       destruct (HLb l1) as (bb & l2 & Hs2).
       assert (Hctxr : ctx_ok l2 F1 E1 c1 c').
@@ -629,15 +741,15 @@ Proof.
         eapply okstep_trans'; [exact Hokc|].
         eapply (okstep_if sc e st1 st' F1 lo hi E1 stL1 (aexpand l1 vc) bb br (VBool false) stc Ein stL'); try assumption.
         -- cbn [truthy]. apply Hs3.
-        -- eapply (rel_restrict pv bound sc e st1 e st' E1 Ein stc stL'); [exact Hrelc | exact Hrelr | exact Hkr | apply (wr_ncell _ _ _ _ _ _ _ Hfr')].
+        -- eapply (rel_restrict pv sv bound u fl W sc e st1 e st' E1 Ein stc stL'); [exact Hrelc | exact Hrelr | exact Hkr | apply (wr_ncell _ _ _ _ _ _ _ Hfr')].
         -- split; [apply (wr_ncell _ _ _ _ _ _ _ Hfr')|]. intros t q Hbt Hr Hq. apply (wr_cells _ _ _ _ _ _ _ Hfr' t q Hbt Hr Hq).
       * eapply okstep_exit'; [exact Hokc | exact Hrel |].
-        eapply (exit_if pv bound ctx sc e lo hi E1 stL1 (aexpand l1 vc) bb br (VBool false) stc); [exact Hwf1 | exact Hevc | exact Hxc | cbn [truthy]; apply Hs3 | exact Hpr].
+        eapply (exit_if pv sv bound u fl W ctx sc e lo hi E1 stL1 (aexpand l1 vc) bb br (VBool false) stc); [exact Hwf1 | exact Hevc | exact Hxc | cbn [truthy]; apply Hs3 | exact Hpr].
       * eapply okstep_exit'; [exact Hokc | exact Hrel |].
-        eapply (exit_if pv bound ctx sc e lo hi E1 stL1 (aexpand l1 vc) bb br (VBool false) stc); [exact Hwf1 | exact Hevc | exact Hxc | cbn [truthy]; apply Hs3 | exact Hpr].
+        eapply (exit_if pv sv bound u fl W ctx sc e lo hi E1 stL1 (aexpand l1 vc) bb br (VBool false) stc); [exact Hwf1 | exact Hevc | exact Hxc | cbn [truthy]; apply Hs3 | exact Hpr].
   - (* the else branch *)
     destruct k as [|k]; [discriminate|]. rewrite frag_branches_none in Hf. destruct brs; [|discriminate Hf].
-    destruct (frag_stmts pv sv bound k sc body) as [scb|] eqn:Hfb; [|discriminate Hf].
+    destruct (frag_stmts pv sv bound fl k sc body) as [scb|] eqn:Hfb; [|discriminate Hf].
     apply mapM_cons_ok in Hm as (y & c1 & ys & Hy & Hys & ->). destruct (mapM_nil_ok _ _ _ _ Hys) as [-> <-].
     unfold lower_if_branch in Hy. mon Hy. fresh_all. rename a0 into blk.
     match goal with H : lower_eblock _ _ _ _ _ _ = Ok _ |- _ => rename H into Hmb end.
@@ -646,18 +758,18 @@ Proof.
     rewrite Hcode in *.
     apply ucovers_cons in Hu as [_ Hu]. apply ucovers_cons in Hu as [Huif Hu]. apply ucovers_app in Hu as [Hub _].
     assert (Hcv : 1 <= count_of u c) by (apply Huif; left; reflexivity).
-    destruct (L_eblock pv sv bound u g (L_expr_all pv sv bound u g) (L_stmts_all pv sv bound u g) k out body ctx (c + 1) blk c' sc scb l Hmb Hfb)
+    destruct (L_eblock pv sv bound u fl g (L_expr_all pv sv bound u fl g) (L_stmts_all pv sv bound u fl g) k out body ctx (c + 1) blk c' sc scb l Hmb Hfb)
       as (_ & _ & (_ & Hc1 & _)).
     change (if_go n e [IfBranch None body bsp]) with (SyltSem.block_value n e body) in Hev.
     assert (Hctxv : ctx_ok l F E c (c + 1)) by (eapply ctx_sub; [exact Hctx | lia | lia]).
-    destruct (finish_iis pv bound u sc e st F c (c + 1) E stL l c (if true then ETrue else EFalse) _ Hrel Hctxv ltac:(lia) (denotes_bool F E stL true))
+    destruct (finish_iis pv sv bound u fl W sc e st F c (c + 1) E stL l c (if true then ETrue else EFalse) _ Hrel Hctxv ltac:(lia) (denotes_bool F E stL true))
       as (E1 & stL1 & F1 & Hok1 & Hd1). specialize (Hd1 Hcv).
     set (l1 := snd (aiis u l c ETrue)) in *.
     pose proof Hok1 as (_ & Hf1 & Hrel1 & Hn1 & _).
     assert (Hsv : cshape u l [IBool c true] (fst (aiis u l c ETrue)) l1 c (c + 1))
       by (apply (cshape_iis u l (IBool c true) c ETrue c (c + 1)); [lia | reflexivity | reflexivity]).
     assert (Hctx1 : ctx_ok l1 F1 E1 (c + 1) c') by (eapply ctx_after; eassumption).
-    pose proof (r_wf _ _ _ _ _ _ _ Hrel1) as Hwf1. pose proof (r_linv _ _ _ _ _ _ _ Hrel1) as Hli1.
+    pose proof (r_wf _ _ _ _ _ _ _ _ _ _ _ Hrel1) as Hwf1. pose proof (r_linv _ _ _ _ _ _ _ _ _ _ _ Hrel1) as Hli1.
     destruct (denotes_now _ _ _ _ _ Hd1 Hwf1 Hli1) as (lvc & Hvvc & stc & Hevc & _ & Hxc). inversion Hvvc; subst lvc.
     assert (Hrelc : rel sc e st E1 stc) by (eapply rel_cells_ext; eassumption).
     assert (Hblo' : bound <= out) by lia.
@@ -679,9 +791,9 @@ Proof.
         eapply (okstep_if sc e st st' F1 lo hi E1 stL1 (aexpand l1 c) bb [] (VBool true) stc Ein stL'); try assumption.
         cbn [truthy]. apply Hs2.
       * eapply okstep_exit'; [exact Hokc | exact Hrel |].
-        eapply (exit_if pv bound ctx sc e lo hi E1 stL1 (aexpand l1 c) bb [] (VBool true) stc); [exact Hwf1 | exact Hevc | exact Hxc | cbn [truthy]; apply Hs2 | exact Hpb].
+        eapply (exit_if pv sv bound u fl W ctx sc e lo hi E1 stL1 (aexpand l1 c) bb [] (VBool true) stc); [exact Hwf1 | exact Hevc | exact Hxc | cbn [truthy]; apply Hs2 | exact Hpb].
       * eapply okstep_exit'; [exact Hokc | exact Hrel |].
-        eapply (exit_if pv bound ctx sc e lo hi E1 stL1 (aexpand l1 c) bb [] (VBool true) stc); [exact Hwf1 | exact Hevc | exact Hxc | cbn [truthy]; apply Hs2 | exact Hpb].
+        eapply (exit_if pv sv bound u fl W ctx sc e lo hi E1 stL1 (aexpand l1 c) bb [] (VBool true) stc); [exact Hwf1 | exact Hevc | exact Hxc | cbn [truthy]; apply Hs2 | exact Hpb].
 Qed.
 
 Lemma P_eval_zero : P_eval O.
@@ -690,9 +802,9 @@ Proof.
   cbn in Hev. inversion Hev; subst. destruct Hint.
 Qed.
 
-Lemma P_eval_succ n : P_eval n -> P_bv n -> P_eval (S n).
+Lemma P_eval_succ n : P_eval n -> P_bv n -> P_apply pv sv bound u fl W n -> P_eval (S n).
 Proof.
-  intros IH IHb g k x ctx c code v c' e st r st' sc l E stL F Hev Hlow Hfrag Hu Hctx Hrel Hint.
+  intros IH IHb IHap g k x ctx c code v c' e st r st' sc l E stL F Hev Hlow Hfrag Hu Hctx Hrel Hint.
   destruct g as [|g]; [discriminate|]. destruct k as [|k]; [discriminate|].
   destruct x; try discriminate Hfrag; cbn [frag_expr] in Hfrag.
   - (* ERead *)
@@ -700,15 +812,93 @@ Proof.
     cbn [SyltSem.eval] in Hev.
     assert (Hin : In var sc).
     { unfold memN in Hfrag. apply existsb_exists in Hfrag as (y & Hy & Heq). apply N.eqb_eq in Heq. subst. exact Hy. }
-    destruct (step_copy pv bound u sc e st F c (c + 1) E stL l c var Hrel Hctx ltac:(lia) Hin)
+    destruct (step_copy pv sv bound u fl W sc e st F c (c + 1) E stL l c var Hrel Hctx ltac:(lia) Hin)
       as (ca & x & Hlk & Hnth & E' & stL' & F' & Hok & Hden).
     rewrite Hlk in Hev. unfold SyltSem.read_cell in Hev. rewrite Hnth in Hev. inversion Hev; subst.
     eexists _, _. split; [apply cshape_plain; [lia | reflexivity | reflexivity | apply used_plain]|].
     split; [lia|]. split; [lia|].
     cbn [eval_post]. exists E', stL', F'. split; [exact Hok | exact Hden].
-  - (* ECall print *)
-    destruct x; try discriminate Hfrag. destruct args as [|a [|? ?]]; try discriminate Hfrag.
-    frag_split Hfrag. apply N.eqb_eq in Hfrag. subst var.
+  - (* ECall *)
+    destruct x; try discriminate Hfrag.
+    destruct (N.eqb_spec var pv) as [->|Hnpv].
+    2: { (* f(a1, ..., an) *)
+      destruct (fun_arity fl var) as [ar|] eqn:Har; [|discriminate Hfrag].
+      apply andb_prop in Hfrag as [Hlen Hfr]. apply Nat.eqb_eq in Hlen.
+      apply fun_arity_in in Har.
+      pose proof (r_world _ _ _ _ _ _ _ _ _ _ _ Hrel) as HW.
+      destruct (wi_cover _ _ _ _ _ _ _ _ _ _ _ HW var ar Har) as (d & Hd & Hdv & Hdar). subst var.
+      assert (Hvis : In (fd_var d) (fnames fl)) by (unfold fnames; change (fd_var d) with (fst (fd_var d, ar)); apply in_map; exact Har).
+      destruct (wi_visS _ _ _ _ _ _ _ _ _ _ _ HW d Hd Hvis) as [Hlkf _].
+      destruct (wi_fun _ _ _ _ _ _ _ _ _ _ _ HW d Hd) as (Hst & HIS & _).
+      pose proof (wi_IS _ _ _ _ _ _ _ _ _ _ _ HW _ _ HIS) as Hnthf.
+      cbn [expression] in Hlow. mon Hlow.
+      destruct g as [|g']; [discriminate|].
+      cbn [expression] in Hm. mon Hm. fresh_all. inj_code. rename a0 into rs. rename c1 into ca.
+      cbn [fst snd] in *.
+      (* the reference interpreter *)
+      cbn [SyltSem.eval] in Hev.
+      destruct n as [|n']; [cbn in Hev; inversion Hev; subst; destruct Hint|].
+      apply sbind_inv in Hev as [(fv & st1 & Hfv & Hev) | [(o & Hfv & ->) | (cc & Hfv & ->)]].
+      2,3: cbn [SyltSem.eval] in Hfv; rewrite Hlkf in Hfv; unfold SyltSem.read_cell in Hfv; rewrite Hnthf in Hfv; discriminate.
+      cbn [SyltSem.eval] in Hfv. rewrite Hlkf in Hfv. unfold SyltSem.read_cell in Hfv. rewrite Hnthf in Hfv.
+      inversion Hfv; subst fv st1. clear Hfv.
+      unfold SyltSem.bind at 1 in Hev.
+      destruct (SyltSem.mapM (SyltSem.eval (S n') e) args st) as [ra st1] eqn:Hy.
+      assert (Hia : interesting ra).
+      { destruct ra; cbn in Hev; [exact I | inversion Hev; subst; exact Hint | inversion Hev; subst; exact Hint]. }
+      (* structure and usage counts *)
+      destruct (L_args pv sv bound u fl (S g') (L_expr_all pv sv bound u fl (S g')) args k ctx (c + 1) rs ca sc l Hm0 Hfr)
+        as (_ & _ & (_ & Hca & _) & Hrsr).
+      apply ucovers_cons in Hu as [_ Hu]. apply ucovers_app in Hu as [Hua Huc].
+      assert (Hcc : 1 <= count_of u c) by (eapply Huc; [left; reflexivity | cbn [ir_uses]; left; reflexivity]).
+      assert (Hcnt : forall r0, In r0 rs -> 1 <= count_of u (snd r0)).
+      { intros r0 Hr0. eapply Huc; [left; reflexivity | cbn [ir_uses]; right; apply in_map; exact Hr0]. }
+      (* the callee *)
+      assert (Hctx0 : ctx_ok l F E c (c + 1)) by (eapply ctx_sub; [exact Hctx | lia | lia]).
+      destruct (step_copy_fun pv sv bound u fl W sc e st F c (c + 1) E stL l c d Hrel Hctx0 ltac:(lia) Hcc Hd Hvis) as (E1 & stL1 & F1 & Hok1 & Hdf).
+      assert (Hs0 : cshape u l [ICopy c (fd_var d)] (fst (agen_one u l (ICopy c (fd_var d)))) l c (c + 1))
+        by (apply cshape_plain; [lia | reflexivity | reflexivity | apply used_plain]).
+      assert (Hctx1 : ctx_ok l F1 E1 (c + 1) (ca + 1)) by (eapply (ctx_after sc e st l F E stL c (c + 1) (ca + 1)); [exact Hctx | exact Hs0 | exact Hok1]).
+      pose proof Hok1 as (Hx1 & _ & Hrel1 & _).
+      (* the arguments *)
+      destruct (args_sim (S n') (S g') IH args k ctx (c + 1) rs ca (ca + 1) e st ra st1 sc l E1 stL1 F1 Hy Hm0 Hfr Hua Hcnt ltac:(lia) Hctx1 Hrel1 Hia)
+        as (b_a & l1 & Hsa & Hpa).
+      assert (Hs01 : cshape u l (ICopy c (fd_var d) :: concat (map fst rs)) (fst (agen_one u l (ICopy c (fd_var d))) ++ b_a) l1 c ca)
+        by (eapply cshape_cons; eassumption).
+      assert (Hshape : cshape u l (ICopy c (fd_var d) :: concat (map fst rs) ++ [ICall ca c (map snd rs)])
+                         ((fst (agen_one u l (ICopy c (fd_var d))) ++ b_a) ++ fst (agen_one u l1 (ICall ca c (map snd rs)))) l1 c (ca + 1)).
+      { change (ICopy c (fd_var d) :: concat (map fst rs) ++ [ICall ca c (map snd rs)])
+          with ((ICopy c (fd_var d) :: concat (map fst rs)) ++ [ICall ca c (map snd rs)]).
+        eapply cshape_app; [exact Hs01|]. apply (cshape_plain u l1 (ICall ca c (map snd rs)) ca (ca + 1)); [lia | reflexivity | reflexivity | reflexivity]. }
+      eexists _, _. split; [exact Hshape|]. split; [lia|]. split; [lia|].
+      destruct ra as [avs|o|cc]; cbn in Hev.
+      - (* the arguments have values: the call *)
+        destruct Hpa as (E2 & stL2 & F2 & Hok2 & Hctx2 & Hds).
+        pose proof Hok2 as (_ & _ & Hrel2 & _).
+        assert (Hok12 : okstep sc e st1 F c ca E stL (fst (agen_one u l (ICopy c (fd_var d))) ++ b_a) E2 stL2 F2)
+          by (eapply okstep_trans; [exact Hok1 | exact Hok2 | lia | lia]).
+        assert (Hdf2 : ldenotes F2 E2 stL2 (aexpand l1 c) (VFun (fd_fid d))).
+        { replace (aexpand l1 c) with (aexpand l c).
+          - assert (Hctx1' : ctx_ok l F1 E1 (c + 1) ca) by (eapply ctx_sub; [exact Hctx1 | lia | lia]).
+            eapply ldenotes_step; [exact Hdf | exact Hok2 | apply (cx_F _ _ _ _ _ _ Hctx1')].
+          - unfold aexpand. destruct Hsa as (_ & _ & Hfr1 & _). rewrite Hfr1 by lia. reflexivity. }
+        pose proof (step_call_fun pv sv bound u fl W (S n') ctx sc e st1 F2 ca (ca + 1) E2 stL2 l1 ca c (map snd rs) avs d r st'
+                      IHap Hrel2 Hctx2 ltac:(lia) Hd Hvis Hdf2 Hds Hev Hint) as Hcall.
+        destruct r as [rv|o|cc]; cbn [eval_post].
+        + destruct Hcall as (E3 & stL3 & F3 & Hok3 & Hd3).
+          exists E3, stL3, F3. split; [|intros _; exact Hd3].
+          eapply okstep_trans; [exact Hok12 | exact Hok3 | lia | lia].
+        + eapply okstep_exit; [exact Hok12 | exact Hrel | exact Hcall | lia | lia].
+        + eapply okstep_exit; [exact Hok12 | exact Hrel | exact Hcall | lia | lia].
+      - inversion Hev; subst r st'. clear Hev. cbn [eval_post] in *.
+        eapply (exit_app pv sv bound u fl W ctx sc e c ca (ca + 1)); [|lia].
+        eapply (okstep_exit ctx sc e st st F F1 c (c + 1) ca); [exact Hok1 | exact Hrel | exact Hpa | lia | exact Hca].
+      - inversion Hev; subst r st'. clear Hev. cbn [eval_post] in *.
+        eapply (exit_app pv sv bound u fl W ctx sc e c ca (ca + 1)); [|lia].
+        eapply (okstep_exit ctx sc e st st F F1 c (c + 1) ca); [exact Hok1 | exact Hrel | exact Hpa | lia | exact Hca]. }
+    (* print(a) *)
+    destruct args as [|a [|? ?]]; try discriminate Hfrag.
+    apply andb_prop in Hfrag as [Hfrag Hfr].
     cbn [expression] in Hlow. mon Hlow.
     destruct g as [|g']; [discriminate|].
     cbn [expression] in Hm. mon Hm. fresh_all.
@@ -718,7 +908,7 @@ Proof.
     (* the reference interpreter *)
     cbn [SyltSem.eval] in Hev.
     destruct n as [|n']; [cbn in Hev; inversion Hev; subst; destruct Hint|].
-    destruct (r_print _ _ _ _ _ _ _ Hrel) as (cp & Hlkp & Hnthp & _).
+    destruct (r_print _ _ _ _ _ _ _ _ _ _ _ Hrel) as (cp & Hlkp & Hnthp & _).
     apply sbind_inv in Hev as [(fv & st1 & Hfv & Hev) | [(o & Hfv & ->) | (cc & Hfv & ->)]].
     2,3: cbn [SyltSem.eval] in Hfv; rewrite Hlkp in Hfv; unfold SyltSem.read_cell in Hfv; rewrite Hnthp in Hfv; discriminate.
     cbn [SyltSem.eval] in Hfv. rewrite Hlkp in Hfv. unfold SyltSem.read_cell in Hfv. rewrite Hnthp in Hfv.
@@ -728,13 +918,13 @@ Proof.
     assert (Hia : interesting ra).
     { destruct ra; cbn in Hev; [exact I | inversion Hev; subst; exact Hint | inversion Hev; subst; exact Hint]. }
     (* structure and usage counts *)
-    destruct (L_expr_all pv sv bound u (S g') k a ctx (c + 1) code_a va ca sc l Ha Hfr) as (b0 & l0 & (_ & Hca & _) & Hva1 & Hva2).
+    destruct (L_expr_all pv sv bound u fl (S g') k a ctx (c + 1) code_a va ca sc l Ha Hfr) as (b0 & l0 & (_ & Hca & _) & Hva1 & Hva2).
     apply ucovers_cons in Hu as [_ Hu]. apply ucovers_app in Hu as [Hua Huc].
     assert (Hcc : 1 <= count_of u c) by (eapply Huc; [left; reflexivity | cbn [ir_uses]; left; reflexivity]).
     assert (Hcva : 1 <= count_of u va) by (eapply Huc; [left; reflexivity | cbn [ir_uses]; right; left; reflexivity]).
     (* the callee *)
     assert (Hctx0 : ctx_ok l F E c (c + 1)) by (eapply ctx_sub; [exact Hctx | lia | lia]).
-    destruct (step_copy_print pv bound u sc e st F c (c + 1) E stL l c Hrel Hctx0 ltac:(lia) Hcc) as (E1 & stL1 & F1 & Hok1 & Hdf).
+    destruct (step_copy_print pv sv bound u fl W sc e st F c (c + 1) E stL l c Hrel Hctx0 ltac:(lia) Hcc) as (E1 & stL1 & F1 & Hok1 & Hdf).
     assert (Hs0 : cshape u l [ICopy c pv] (fst (agen_one u l (ICopy c pv))) l c (c + 1))
       by (apply cshape_plain; [lia | reflexivity | reflexivity | apply used_plain]).
     assert (Hctx1 : ctx_ok l F1 E1 (c + 1) ca).
@@ -754,7 +944,7 @@ Proof.
     + (* the argument has a value *)
       destruct Hpa as (E2 & stL2 & F2 & Hok2 & Hda). specialize (Hda Hcva).
       pose proof Hok2 as (_ & _ & Hrel2 & _).
-      destruct (denotes_now _ _ _ _ _ Hda (r_wf _ _ _ _ _ _ _ Hrel2) (r_linv _ _ _ _ _ _ _ Hrel2)) as (lv & Hvy & _).
+      destruct (denotes_now _ _ _ _ _ Hda (r_wf _ _ _ _ _ _ _ _ _ _ _ Hrel2) (r_linv _ _ _ _ _ _ _ _ _ _ _ Hrel2)) as (lv & Hvy & _).
       assert (Hyx : exists x, y = SV x) by (inversion Hvy; eauto). destruct Hyx as [x ->].
       cbn in Hev. inversion Hev; subst r st'. clear Hev.
       assert (Hok12 : okstep sc e st1 F c ca E stL (fst (agen_one u l (ICopy c pv)) ++ b_a) E2 stL2 F2)
@@ -764,7 +954,7 @@ Proof.
       { replace (aexpand l1 c) with (aexpand l c).
         - eapply ldenotes_step; [exact Hdf | exact Hok2 | apply (cx_F _ _ _ _ _ _ Hctx1)].
         - unfold aexpand. destruct Hsa as (_ & _ & Hfr1 & _). rewrite Hfr1 by lia. reflexivity. }
-      destruct (step_call_print pv bound u sc e st1 F2 ca (ca + 1) E2 stL2 l1 ca c va x Hrel2 Hctx2 ltac:(lia) Hdf2 Hda)
+      destruct (step_call_print pv sv bound u fl W sc e st1 F2 ca (ca + 1) E2 stL2 l1 ca c va x Hrel2 Hctx2 ltac:(lia) Hdf2 Hda)
         as (E3 & stL3 & F3 & Hok3 & Hd3).
       cbn [eval_post]. exists E3, stL3, F3. split; [|intros _; exact Hd3].
       eapply okstep_trans; [exact Hok12 | exact Hok3 | lia | lia].
@@ -804,8 +994,8 @@ Proof.
       2,3: (inversion Hev; subst; cbn [eval_post]; rewrite app_assoc; eapply exit_app; [exact (Hmatch Hint) | lia]).
       destruct Hmatch as (E2 & stL2 & F2 & Hok2 & Hctx2 & Hda & Hdb). specialize (Hda Hcva). specialize (Hdb Hcvb).
       pose proof Hok2 as (_ & _ & Hrel2 & _).
-      destruct (denotes_now _ _ _ _ _ Hda (r_wf _ _ _ _ _ _ _ Hrel2) (r_linv _ _ _ _ _ _ _ Hrel2)) as (lva & Hvva & _).
-      destruct (denotes_now _ _ _ _ _ Hdb (r_wf _ _ _ _ _ _ _ Hrel2) (r_linv _ _ _ _ _ _ _ Hrel2)) as (lvb & Hvvb & _).
+      destruct (denotes_now _ _ _ _ _ Hda (r_wf _ _ _ _ _ _ _ _ _ _ _ Hrel2) (r_linv _ _ _ _ _ _ _ _ _ _ _ Hrel2)) as (lva & Hvva & _).
+      destruct (denotes_now _ _ _ _ _ Hdb (r_wf _ _ _ _ _ _ _ _ _ _ _ Hrel2) (r_linv _ _ _ _ _ _ _ _ _ _ _ Hrel2)) as (lvb & Hvvb & _).
       assert (Hxa : exists xa, va_ = SV xa) by (inversion Hvva; eauto). destruct Hxa as [xa ->].
       assert (Hxb : exists xb, vb_ = SV xb) by (inversion Hvvb; eauto). destruct Hxb as [xb ->].
       unfold SyltSem.bind at 1 in Hev. rewrite snapshot_SV in Hev.
@@ -815,7 +1005,7 @@ Proof.
       * pose proof (binop_val_state _ _ _ _ _ _ Hbv). subst st3.
         cbn in Hev. inversion Hev; subst r st'. clear Hev.
         pose proof (denotes_binop F2 E2 stL2 op _ _ xa xb rv st2 st2 Hvop Hda Hdb Hbv) as Hdr.
-        destruct (finish_iis pv bound u sc e st2 F2 c1 (c1 + 1) E2 stL2 l2 c1 _ _ Hrel2 Hctx2 ltac:(lia) Hdr)
+        destruct (finish_iis pv sv bound u fl W sc e st2 F2 c1 (c1 + 1) E2 stL2 l2 c1 _ _ Hrel2 Hctx2 ltac:(lia) Hdr)
           as (E3 & stL3 & F3 & Hok3 & Hd3).
         cbn [eval_post]. exists E3, stL3, F3. split; [|exact Hd3].
         rewrite app_assoc. eapply okstep_trans; [exact Hok2 | exact Hok3 | lia | lia].
@@ -849,18 +1039,18 @@ Proof.
         2,3: (inversion Hev; subst; cbn [eval_post]; rewrite app_assoc; eapply exit_app; [exact (Hmatch Hint) | lia]).
         destruct Hmatch as (E2 & stL2 & F2 & Hok2 & Hctx2 & Hda & Hdb). specialize (Hda Hcva). specialize (Hdb Hcvb).
         pose proof Hok2 as (Hx2 & _ & Hrel2 & _).
-        destruct (denotes_now _ _ _ _ _ Hda (r_wf _ _ _ _ _ _ _ Hrel2) (r_linv _ _ _ _ _ _ _ Hrel2)) as (lva & Hvva & _).
-        destruct (denotes_now _ _ _ _ _ Hdb (r_wf _ _ _ _ _ _ _ Hrel2) (r_linv _ _ _ _ _ _ _ Hrel2)) as (lvb & Hvvb & _).
+        destruct (denotes_now _ _ _ _ _ Hda (r_wf _ _ _ _ _ _ _ _ _ _ _ Hrel2) (r_linv _ _ _ _ _ _ _ _ _ _ _ Hrel2)) as (lva & Hvva & _).
+        destruct (denotes_now _ _ _ _ _ Hdb (r_wf _ _ _ _ _ _ _ _ _ _ _ Hrel2) (r_linv _ _ _ _ _ _ _ _ _ _ _ Hrel2)) as (lvb & Hvvb & _).
         assert (Hxa : exists xa, va_ = SV xa) by (inversion Hvva; eauto). destruct Hxa as [xa ->].
         assert (Hxb : exists xb, vb_ = SV xb) by (inversion Hvvb; eauto). destruct Hxb as [xb ->].
         unfold SyltSem.bind at 1 in Hev. rewrite snapshot_SV in Hev.
         unfold SyltSem.bind at 1 in Hev. rewrite snapshot_SV in Hev.
         assert (Hdr : denotes F2 E2 stL2 xe (SV (Values.VBool (Runtime.rt_eq xa xb)))).
         { apply (denotes_binop F2 E2 stL2 Equals _ _ xa xb _ st2 st2 eq_refl Hda Hdb). reflexivity. }
-        destruct (finish_iis pv bound u sc e st2 F2 c1 (c1 + 1) E2 stL2 l2 c1 _ _ Hrel2 Hctx2 ltac:(lia) Hdr)
+        destruct (finish_iis pv sv bound u fl W sc e st2 F2 c1 (c1 + 1) E2 stL2 l2 c1 _ _ Hrel2 Hctx2 ltac:(lia) Hdr)
           as (E3 & stL3 & F3 & Hok3 & Hd3). specialize (Hd3 Hcc).
         pose proof Hok3 as (Hx3 & _ & Hrel3 & _).
-        pose proof (step_assert pv bound u sc e st2 F3 E3 stL3 l3 c1 (Runtime.rt_eq xa xb) Hrel3 Hd3) as Hass.
+        pose proof (step_assert pv sv bound u fl W sc e st2 F3 E3 stL3 l3 c1 (Runtime.rt_eq xa xb) Hrel3 Hd3) as Hass.
         assert (Hok23 : okstep sc e st2 F c (c1 + 1) E stL ((b1 ++ b2) ++ fst (aiis u l2 c1 xe)) E3 stL3 F3)
           by (eapply okstep_trans; [exact Hok2 | exact Hok3 | lia | lia]).
         destruct (Runtime.rt_eq xa xb) eqn:Heq.
@@ -871,8 +1061,8 @@ Proof.
                 with (((b1 ++ b2) ++ fst (aiis u l2 c1 xe)) ++ fst (agen_one u l3 (IAssert c1))) by (rewrite <- !app_assoc; reflexivity).
               destruct Hok23 as (Hx23 & Hf23 & _ & Hn23).
               split; [eapply ExecS_app; [exact Hx23 | exact Hx4]|]. split; [|split; [exact Hrel4 | exact Hn23]].
-              eapply wframe_trans; [exact Hf23|]. apply lframe_w. apply lframe_cells_ext; [apply (r_wf _ _ _ _ _ _ _ Hrel3) | apply (r_linv _ _ _ _ _ _ _ Hrel3) | exact Hext].
-           ++ intros _. eapply denotes_mono; [exact Hd3 | apply fut_cells_ext; [apply (r_wf _ _ _ _ _ _ _ Hrel3) | exact Hext] | apply incl_refl].
+              eapply wframe_trans; [exact Hf23|]. apply lframe_w. apply lframe_cells_ext; [apply (r_wf _ _ _ _ _ _ _ _ _ _ _ Hrel3) | apply (r_linv _ _ _ _ _ _ _ _ _ _ _ Hrel3) | exact Hext].
+           ++ intros _. eapply denotes_mono; [exact Hd3 | apply fut_cells_ext; [apply (r_wf _ _ _ _ _ _ _ _ _ _ _ Hrel3) | exact Hext] | apply incl_refl].
         -- inversion Hev; subst r st'. clear Hev.
            destruct Hass as (ev & stL4 & Hx4 & Htr).
            cbn [eval_post]. exists (RErr ev stL4). split; [|cbn [exit_ok]; eauto].
@@ -882,18 +1072,18 @@ Proof.
       * (* and *)
         cbn [expression] in Hlow. mon Hlow. fresh_all. inj_code.
         destruct a as [code_a va]. destruct a0 as [code_b vb]. cbn [fst snd] in *.
-        set (t := c1) in *. set (fl := c1 + 1) in *.
+        set (t := c1) in *. set (flg := c1 + 1) in *.
         apply ucovers_app in Hu as [Hua Hu].
         apply ucovers_cons in Hu as [Hu1 Hu]. apply ucovers_cons in Hu as [_ Hu]. apply ucovers_cons in Hu as [Hu3 Hu].
         apply ucovers_cons in Hu as [Hu4 Hu]. apply ucovers_app in Hu as [Hub Huend].
         assert (Hct : 1 <= count_of u t) by (apply Hu1; left; reflexivity).
-        assert (Hcfl : 1 <= count_of u fl) by (apply Hu3; right; left; reflexivity).
+        assert (Hcfl : 1 <= count_of u flg) by (apply Hu3; right; left; reflexivity).
         assert (Hcva : 1 <= count_of u va) by (apply Hu4; left; reflexivity).
         assert (Hcvb : 1 <= count_of u vb) by (eapply Huend; [left; reflexivity | right; left; reflexivity]).
-        destruct (L_expr_all pv sv bound u g k x1 ctx c code_a va c0 sc l Hm Hfr0) as (b1' & l1' & Hs1' & Hva1 & Hva2).
+        destruct (L_expr_all pv sv bound u fl g k x1 ctx c code_a va c0 sc l Hm Hfr0) as (b1' & l1' & Hs1' & Hva1 & Hva2).
         pose proof Hs1' as (_ & Hc0 & _).
         assert (Hsb : forall l0, exists b2 l2, cshape u l0 code_b b2 l2 c0 c1 /\ c0 <= vb /\ vb < c1)
-          by (intros l0; apply (L_expr_all pv sv bound u g k x2 ctx c0 code_b vb c1 sc l0 Hm0 Hfr)).
+          by (intros l0; apply (L_expr_all pv sv bound u fl g k x2 ctx c0 code_b vb c1 sc l0 Hm0 Hfr)).
         destruct (Hsb l) as (_ & _ & (_ & Hc01 & _) & Hvb1 & Hvb2).
         assert (Hctxa : ctx_ok l F E c c0) by (eapply ctx_sub; [exact Hctx | lia | unfold t in *; lia]).
         cbn [SyltSem.eval] in Hev. unfold SyltSem.bind at 1 in Hev.
@@ -901,14 +1091,14 @@ Proof.
         2: { inversion Hev; subst.
              destruct (IH g k x1 ctx c code_a va c0 e st _ st' sc l E stL F He1 Hm Hfr0 Hua Hctxa Hrel Hint)
                as (b1 & l1 & Hs1 & _ & _ & Hp1).
-             destruct (and_tail_shape u l1 t fl va code_b vb c0 c1 c (c1 + 1 + 1) Hsb) as (bl & l' & Hst); try (unfold t, fl; lia).
+             destruct (and_tail_shape u l1 t flg va code_b vb c0 c1 c (c1 + 1 + 1) Hsb) as (bl & l' & Hst); try (unfold t, flg; lia).
              eexists _, _. split; [eapply cshape_app'; [eapply cshape_widen; [exact Hs1 | lia | unfold t; lia] | exact Hst]|].
              split; [unfold t; lia|]. split; [unfold t; lia|].
              cbn [eval_post] in *. eapply exit_app; [exact Hp1 | unfold t; lia]. }
         2: { inversion Hev; subst.
              destruct (IH g k x1 ctx c code_a va c0 e st _ st' sc l E stL F He1 Hm Hfr0 Hua Hctxa Hrel Hint)
                as (b1 & l1 & Hs1 & _ & _ & Hp1).
-             destruct (and_tail_shape u l1 t fl va code_b vb c0 c1 c (c1 + 1 + 1) Hsb) as (bl & l' & Hst); try (unfold t, fl; lia).
+             destruct (and_tail_shape u l1 t flg va code_b vb c0 c1 c (c1 + 1 + 1) Hsb) as (bl & l' & Hst); try (unfold t, flg; lia).
              eexists _, _. split; [eapply cshape_app'; [eapply cshape_widen; [exact Hs1 | lia | unfold t; lia] | exact Hst]|].
              split; [unfold t; lia|]. split; [unfold t; lia|].
              cbn [eval_post] in *. eapply exit_app; [exact Hp1 | unfold t; lia]. }
@@ -916,19 +1106,19 @@ Proof.
           as (b1 & l1 & Hs1 & _ & _ & E1 & stL1 & F1 & Hok1 & Hd1). specialize (Hd1 Hcva).
         pose proof Hok1 as (_ & _ & Hrel1 & _).
         assert (Hctx1 : ctx_ok l1 F1 E1 c0 (c1 + 1 + 1)) by (eapply ctx_after; eassumption).
-        destruct (denotes_now _ _ _ _ _ Hd1 (r_wf _ _ _ _ _ _ _ Hrel1) (r_linv _ _ _ _ _ _ _ Hrel1)) as (lva & Hvva & _).
+        destruct (denotes_now _ _ _ _ _ Hd1 (r_wf _ _ _ _ _ _ _ _ _ _ _ Hrel1) (r_linv _ _ _ _ _ _ _ _ _ _ _ Hrel1)) as (lva & Hvva & _).
         unfold SyltSem.bind at 1 in Hev.
         assert (Hba : exists ba, va_ = SV (Values.VBool ba)).
         { inversion Hvva; subst; cbn in Hev; inversion Hev; subst; try destruct Hint. eauto. }
         destruct Hba as [ba ->]. cbn [SyltSem.truth SyltSem.ret] in Hev.
         assert (Hbc : bound <= c) by (destruct Hctx; assumption).
-        destruct (sc_tail n g k x2 ctx c0 code_b vb c1 c (c1 + 1 + 1) e st1 sc l1 E1 stL1 F1 t fl None va false ba IH Hm0 Hfr Hub Hct Hcfl Hcvb Hbc Hc0)
-          as (bl & l' & Hst & Hlt' & Hmatch); try (unfold t, fl; lia); try assumption; try discriminate.
+        destruct (sc_tail n g k x2 ctx c0 code_b vb c1 c (c1 + 1 + 1) e st1 sc l1 E1 stL1 F1 t flg None va false ba IH Hm0 Hfr Hub Hct Hcfl Hcvb Hbc Hc0)
+          as (bl & l' & Hst & Hlt' & Hmatch); try (unfold t, flg; lia); try assumption; try discriminate.
         eexists _, _. split.
         { eapply cshape_app'; [eapply cshape_widen; [exact Hs1 | lia | unfold t in *; lia]|].
           match goal with |- cshape _ _ ?code _ _ _ _ =>
-            replace code with ([IDefine t; IBool fl false; IAssign t fl] ++ sc_mid None va ++ IIf (sc_cond None va) :: (code_b ++ [IAssign t vb]) ++ [IEnd])
-              by (unfold fl; cbn [app sc_mid sc_cond]; rewrite <- app_assoc; reflexivity) end.
+            replace code with ([IDefine t; IBool flg false; IAssign t flg] ++ sc_mid None va ++ IIf (sc_cond None va) :: (code_b ++ [IAssign t vb]) ++ [IEnd])
+              by (unfold flg; cbn [app sc_mid sc_cond]; rewrite <- app_assoc; reflexivity) end.
           exact Hst. }
         split; [unfold t in *; lia|]. split; [unfold t; lia|].
         cbn [sc_go] in Hmatch.
@@ -952,10 +1142,10 @@ Proof.
         assert (Hcva : 1 <= count_of u va) by (apply Hu4; left; reflexivity).
         assert (Hcna : 1 <= count_of u c1) by (apply Hu5; left; reflexivity).
         assert (Hcvb : 1 <= count_of u vb) by (eapply Huend; [left; reflexivity | right; left; reflexivity]).
-        destruct (L_expr_all pv sv bound u g k x1 ctx c code_a va c0 sc l Hm Hfr0) as (b1' & l1' & Hs1' & Hva1 & Hva2).
+        destruct (L_expr_all pv sv bound u fl g k x1 ctx c code_a va c0 sc l Hm Hfr0) as (b1' & l1' & Hs1' & Hva1 & Hva2).
         pose proof Hs1' as (_ & Hc0 & _).
         assert (Hsb : forall l0, exists b2 l2, cshape u l0 code_b b2 l2 c0 c1 /\ c0 <= vb /\ vb < c1)
-          by (intros l0; apply (L_expr_all pv sv bound u g k x2 ctx c0 code_b vb c1 sc l0 Hm0 Hfr)).
+          by (intros l0; apply (L_expr_all pv sv bound u fl g k x2 ctx c0 code_b vb c1 sc l0 Hm0 Hfr)).
         destruct (Hsb l) as (_ & _ & (_ & Hc01 & _) & Hvb1 & Hvb2).
         assert (Hctxa : ctx_ok l F E c c0) by (eapply ctx_sub; [exact Hctx | lia | lia]).
         cbn [SyltSem.eval] in Hev. unfold SyltSem.bind at 1 in Hev.
@@ -978,7 +1168,7 @@ Proof.
           as (b1 & l1 & Hs1 & _ & _ & E1 & stL1 & F1 & Hok1 & Hd1). specialize (Hd1 Hcva).
         pose proof Hok1 as (_ & _ & Hrel1 & _).
         assert (Hctx1 : ctx_ok l1 F1 E1 c0 (c1 + 1 + 1 + 1)) by (eapply ctx_after; eassumption).
-        destruct (denotes_now _ _ _ _ _ Hd1 (r_wf _ _ _ _ _ _ _ Hrel1) (r_linv _ _ _ _ _ _ _ Hrel1)) as (lva & Hvva & _).
+        destruct (denotes_now _ _ _ _ _ Hd1 (r_wf _ _ _ _ _ _ _ _ _ _ _ Hrel1) (r_linv _ _ _ _ _ _ _ _ _ _ _ Hrel1)) as (lva & Hvva & _).
         unfold SyltSem.bind at 1 in Hev.
         assert (Hba : exists ba, va_ = SV (Values.VBool ba)).
         { inversion Hvva; subst; cbn in Hev; inversion Hev; subst; try destruct Hint. eauto. }
@@ -1024,7 +1214,7 @@ Proof.
     { intros c0 code_a va i xf Ha -> -> -> Hsimple Hgen Huse Hsem.
       apply ucovers_app in Hu as [Hua Hui].
       assert (Hcva : 1 <= count_of u va) by (eapply Hui; [left; reflexivity | exact Huse]).
-      destruct (L_expr_all pv sv bound u g k x ctx c code_a va c0 sc l Ha Hfrag) as (_ & _ & (_ & Hc0 & _) & Hva1 & Hva2).
+      destruct (L_expr_all pv sv bound u fl g k x ctx c code_a va c0 sc l Ha Hfrag) as (_ & _ & (_ & Hc0 & _) & Hva1 & Hva2).
       assert (Hctxa : ctx_ok l F E c c0) by (eapply ctx_sub; [exact Hctx | lia | lia]).
       assert (Hev' : SyltSem.bind (SyltSem.eval n e x)
                        (fun sva => match op with
@@ -1051,10 +1241,10 @@ Proof.
       assert (Hctx1 : ctx_ok l1 F1 E1 c0 (c0 + 1)) by (eapply ctx_after; eassumption).
       eexists _, _. split; [eapply cshape_app; [exact Hs1|]; apply (cshape_iis u l1 i c0 (xf (aexpand l1 va)) c0 (c0 + 1)); [lia | exact Hsimple | apply Hgen]|].
       split; [lia|]. split; [lia|].
-      pose proof (Hsem F1 E1 stL1 _ sva st1 r Hd1 Hev' (r_wf _ _ _ _ _ _ _ Hrel1) (r_linv _ _ _ _ _ _ _ Hrel1)) as Hres.
+      pose proof (Hsem F1 E1 stL1 _ sva st1 r Hd1 Hev' (r_wf _ _ _ _ _ _ _ _ _ _ _ Hrel1) (r_linv _ _ _ _ _ _ _ _ _ _ _ Hrel1)) as Hres.
       destruct r as [sv_|o|cc]; [|contradiction|contradiction].
       destruct Hres as [-> Hdr].
-      destruct (finish_iis pv bound u sc e st1 F1 c0 (c0 + 1) E1 stL1 l1 c0 _ _ Hrel1 Hctx1 ltac:(lia) Hdr)
+      destruct (finish_iis pv sv bound u fl W sc e st1 F1 c0 (c0 + 1) E1 stL1 l1 c0 _ _ Hrel1 Hctx1 ltac:(lia) Hdr)
         as (E3 & stL3 & F3 & Hok3 & Hd3).
       cbn [eval_post]. exists E3, stL3, F3. split; [eapply okstep_trans; [exact Hok1 | exact Hok3 | lia | lia] | exact Hd3]. }
     destruct op; cbn [expression] in Hlow; mon Hlow; fresh_all; inj_code; destruct a as [code_a va]; cbn [fst snd] in *.
@@ -1071,16 +1261,16 @@ Proof.
       inversion Hv; subst; cbn in Hr; inversion Hr; subst; cbn; auto.
       split; [reflexivity | apply denotes_not; exact Hd].
   - (* EIf *)
-    change (frag_branches pv sv bound k sc branches = true) in Hfrag.
+    change (frag_branches pv sv bound fl k sc branches = true) in Hfrag.
     cbn [expression] in Hlow. mon Hlow. fresh_all. inj_code. rename a0 into codes.
     rewrite seval_if in Hev.
     apply ucovers_cons in Hu as [Hud Hub].
     assert (Hcc : 1 <= count_of u c) by (apply Hud; left; reflexivity).
-    destruct (L_branches pv sv bound u g (L_expr_all pv sv bound u g) (L_stmts_all pv sv bound u g) branches k c ctx (c + 1) codes c' sc l Hm0 Hfrag)
+    destruct (L_branches pv sv bound u fl g (L_expr_all pv sv bound u fl g) (L_stmts_all pv sv bound u fl g) branches k c ctx (c + 1) codes c' sc l Hm0 Hfrag)
       as (_ & _ & (_ & Hcc' & _)).
     assert (Hctxd : ctx_ok l F E c (c + 1)) by (eapply ctx_sub; [exact Hctx | lia | lia]).
     assert (Hcr : c <= c < c + 1) by lia.
-    destruct (step_define_temp pv bound u sc e st F c (c + 1) E stL l c Hrel Hctxd Hcr Hcc) as (E1 & stL1 & p & Hokd & Hp & Hcell).
+    destruct (step_define_temp pv sv bound u fl W sc e st F c (c + 1) E stL l c Hrel Hctxd Hcr Hcc) as (E1 & stL1 & p & Hokd & Hp & Hcell & Hnp).
     assert (Hsd : cshape u l [IDefine c] (fst (agen_one u l (IDefine c))) l c (c + 1))
       by (apply cshape_plain; [lia | reflexivity | reflexivity | apply used_plain]).
     assert (Hctx1 : ctx_ok l F E1 (c + 1) c') by (eapply ctx_after; eassumption).
@@ -1091,7 +1281,7 @@ Proof.
     assert (Hlc : alut_get l c = None) by (apply (cx_lut _ _ _ _ _ _ Hctx); left; lia).
     assert (HcF : ~ In c F) by (intros Hin; destruct (cx_F _ _ _ _ _ _ Hctx c Hin) as [_ Hn]; apply Hn; lia).
     destruct (branches_sim n g IH IHb branches k ctx (c + 1) codes c' e st r st' sc l E1 stL1 F c p c c' Hev Hm0 Hfrag Hub Hctx1 Hrel1
-                Hbc Hr1 Hr2 Hr3 Hr4 Hp Hcell Hlc Hcc HcF Hint)
+                Hbc Hr1 Hr2 Hr3 Hr4 Hp Hnp Hcell Hlc Hcc HcF Hint)
       as (bb & l' & Hsb & Hl'c & Hpost).
     eexists _, _. split; [eapply cshape_cons'; [eapply cshape_widen; [exact Hsd | lia | lia] | eapply cshape_widen; [exact Hsb | lia | lia]]|].
     split; [lia|]. split; [lia|].
@@ -1112,7 +1302,7 @@ Proof.
     cbn in Hev. inversion Hev; subst r st'. clear Hev.
     eexists _, _. split; [apply (cshape_iis u l (IInt c z) c (aint z) c (c + 1)); [lia | reflexivity | reflexivity]|].
     split; [lia|]. split; [lia|].
-    destruct (finish_iis pv bound u sc e st F c (c + 1) E stL l c _ _ Hrel Hctx ltac:(lia) (denotes_int F E stL z))
+    destruct (finish_iis pv sv bound u fl W sc e st F c (c + 1) E stL l c _ _ Hrel Hctx ltac:(lia) (denotes_int F E stL z))
       as (E3 & stL3 & F3 & Hok3 & Hd3).
     cbn [eval_post]. exists E3, stL3, F3. split; assumption.
   - (* EBool *)
@@ -1120,7 +1310,7 @@ Proof.
     cbn in Hev. inversion Hev; subst r st'. clear Hev.
     eexists _, _. split; [apply (cshape_iis u l (IBool c b) c (if b then ETrue else EFalse) c (c + 1)); [lia | reflexivity | reflexivity]|].
     split; [lia|]. split; [lia|].
-    destruct (finish_iis pv bound u sc e st F c (c + 1) E stL l c _ _ Hrel Hctx ltac:(lia) (denotes_bool F E stL b))
+    destruct (finish_iis pv sv bound u fl W sc e st F c (c + 1) E stL l c _ _ Hrel Hctx ltac:(lia) (denotes_bool F E stL b))
       as (E3 & stL3 & F3 & Hok3 & Hd3).
     cbn [eval_post]. exists E3, stL3, F3. split; assumption.
 Qed.
